@@ -130,6 +130,13 @@ CLAIMS["C15"] = (
     "DESIGN.md §3 C15",
 )
 
+CLAIMS["C16"] = (
+    "context-sensitive reachability over SSA specialised on constant boolean / nil arguments (branches on known parameters pruned through the helper layers) to a frozen set of zone-dependent operations; value flow from the zone-name parameter to time.LoadLocation; who-writes rule for time.Local and module-level *time.Location variables; dominance of SetTZFromEnv over successful returns of the command-line parser; abstract kind evaluation of documented pass-through; control dependence of the verb's store",
+    "Decides the zone-separation clause and the wrapper clause: no GMT/zone-free time function of the built-in table can reach a process-zone read, a zone load or a conversion to a non-UTC location under the constant arguments its helpers receive; every *_local function without a zone argument reaches the process zone, and with one loads exactly that argument and no process zone; time.Local has one writer, no second copy of the zone is kept, every TZ assignment is followed by SetTZFromEnv; functions documented to leave non-numbers as-is do so in every arity; the sec2gmt verb stores only under the numeric test and sec2gmtdate returns non-numeric arguments unchanged. It does not decide which instant a text denotes, rounding of fractional seconds, format coverage, dhms splitting or DST arithmetic (seeded change C16-2 is value-level and not caught).",
+    "Trusts go/ssa, Go's time package (LoadLocation returns a non-nil location when err is nil; Time.UTC/In/Local semantics), and the frozen list of zone-dependent operations in checker/c16.go. The rule against a second copy of the zone was written after seeing seeded change C16-1.",
+    "DESIGN.md §3 C16",
+)
+
 NOT_APPLICABLE = {
     "C13": "Join pairing, ordering and unpaired accounting are relational identities over run-time key values and bucket contents; no clause is a shape fact visible to static analysis (the shared protocol facts are reported under C04/C10/C17).",
 }
